@@ -250,6 +250,8 @@ class FakeOS:
 
     def write(self, fd, data):
         if fd not in SIM_FDS:
+            # only the library's URL temp-file copy writes to a real descriptor
+            self._tty.k.seam("tmp.write", len(data))
             return real_os.write(fd, data)
         tty = self._tty
         tty.k.seam("tty.write", len(data))
